@@ -110,27 +110,37 @@ def do_check(mod, pid, modname, seed, args):
     for old in glob.glob(os.path.join(ROOT, "replays", f"{pid}-*.json")):
         os.remove(old)
     pool = runner.Pool(args.src, modname, tier, seed, args.workers)
-    agg = Aggregate(mod, pid)
     try:
-        for res in pool.map_indices(range(n)):
-            agg.add(res)
-        if agg.harness_errors:
-            for e in agg.harness_errors[:3]:
-                print(e)
-            print(f"HARNESS-ERROR property={pid}: {len(agg.harness_errors)} runs failed inside the harness")
-            return 2
-        # determinism recheck: re-execute a sample of runs (other worker, other child) and compare digests
-        k = max(10, min(200, n // 100))
-        step = max(1, n // k)
-        sample = list(range(0, n, step))[:k]
-        mism = 0
-        for res in pool.map_indices(sample, chunk=1, solo=True):
-            if "harness_error" in res or agg.digests.get(res["index"]) != res["digest"]:
-                mism += 1
-                print(f"determinism mismatch at index {res.get('index')}")
-        if mism:
-            print(f"HARNESS-ERROR property={pid}: {mism} determinism mismatches")
-            return 2
+        batch = max(1, int(getattr(mod, "BATCH", 1)))
+        solo_pass = False
+        while True:
+            agg = Aggregate(mod, pid)
+            for res in pool.map_indices(range(n), solo=solo_pass):
+                agg.add(res)
+            if agg.harness_errors:
+                for e in agg.harness_errors[:3]:
+                    print(e)
+                print(f"HARNESS-ERROR property={pid}: {len(agg.harness_errors)} runs failed inside the harness")
+                return 2
+            # determinism recheck: re-execute a sample of runs (other worker, alone in a fresh child) and compare digests
+            k = max(10, min(200, n // 100))
+            step = max(1, n // k)
+            sample = list(range(0, n, step))[:k]
+            mism = 0
+            for res in pool.map_indices(sample, chunk=1, solo=True):
+                if "harness_error" in res or agg.digests.get(res["index"]) != res["digest"]:
+                    mism += 1
+            if mism and batch > 1 and not solo_pass:
+                # runs sharing a child influenced each other: the tree under test keeps process-global state that the
+                # batching assumption does not know.  Fall back to one pristine child per run and judge on that.
+                print(f"note: {mism} batched runs differ from their solo re-execution; repeating all {n} runs with one "
+                      f"pristine process per run")
+                solo_pass = True
+                continue
+            if mism:
+                print(f"HARNESS-ERROR property={pid}: {mism} determinism mismatches")
+                return 2
+            break
         agg.determinism_rechecks = len(sample)
 
         # violations: group by key
